@@ -59,6 +59,11 @@ func execReason(c ReasonCase) (v ev.Verdict) {
 				continue
 			}
 			if !e.HasDiff {
+				// generated projects hold no self-referential data, so a changed environment can always be
+				// diffed: the reason must name the parts, never fall back to a generic text
+				if e.Text == "environment changed" {
+					return ev.Failf("reason-generic", "op %d: %s is re-evaluated because its environment changed, but the reason %q does not name the parts that differ", n, e.Label, e.Text)
+				}
 				// an environment reason must come with its diff
 				for _, k := range projsim.EnvKeys {
 					if strings.HasPrefix(e.Text, k+" ") || strings.Contains(e.Text, ", "+k) || strings.Contains(e.Text, "and "+k+" changed") {
